@@ -141,7 +141,138 @@ def jobs(tier):
         out.append({"name": "only/%s" % pos, "combos": [[a[-1] for a in ALPH.values()]], "where": pos, "formats": fmts})
         # schemas that declare sensitive fields *only* at this position (nothing sensitive anywhere else in the tree)
         out.append({"name": "schema-only/%s" % pos, "combos": [[a[-1] for a in ALPH.values()]], "where": pos, "formats": fmts, "schema_only": pos})
+    for variant in INDIRECT:
+        out.append({"name": "indirect/%s" % variant, "indirect": variant, "formats": fmts + (["pickle"] if "pickle" not in fmts else [])})
     return out
+
+
+# configurations reached through something other than a declared sub-schema, and schemas that gain their sensitive
+# fields after a first masked rendering
+INDIRECT = ["virtual-returns-item", "virtual-returns-sub", "dynamic-holds-config", "late-attr", "late-item", "late-dotted-item", "late-auto-sub",
+            "late-in-item-schema"]
+
+
+def _indirect_world(variant, keypath, prior_render):
+    import cincoconfig as cc
+
+    def node(sch):
+        sch.sec_s = cc.StringField(sensitive=True)
+        sch.sec_x = cc.SecureField(method="xor")
+        sch.pub_s = cc.StringField()
+    s = cc.Schema(dynamic=(variant == "dynamic-holds-config"))
+    node(s)
+    node(s.sub)
+    item = cc.Schema()
+    node(item)
+    s.items = cc.ListField(item)
+    if variant == "virtual-returns-item":
+        s.first = cc.VirtualField(lambda cfg: cfg.items[0] if cfg.items else None)
+    if variant == "virtual-returns-sub":
+        s.alias = cc.VirtualField(lambda cfg: cfg.sub)
+    vals = {"sec_s": "TOPSECRET-xyz", "sec_x": "XSECRET-q9", "pub_s": "PUBLIC-abc"}
+    tree = dict(vals, sub=dict(vals), items=[dict(vals)])
+    cfg = cc.Config(s, key_filename=keypath)
+    cfg.load_tree(tree)
+    if prior_render:
+        cfg.to_tree(sensitive_mask="*")
+        cfg.dumps("json", sensitive_mask="XX")
+    late = {}
+    if variant == "late-attr":
+        s.late = cc.StringField(sensitive=True)
+        late = {"late": "LATESECRET-1"}
+    elif variant == "late-item":
+        s["late"] = cc.StringField(sensitive=True)
+        late = {"late": "LATESECRET-1"}
+    elif variant == "late-dotted-item":
+        s["sub.late"] = cc.StringField(sensitive=True)
+        late = {"sub": dict(vals, late="LATESECRET-1")}
+    elif variant == "late-auto-sub":
+        s.newsub.late = cc.StringField(sensitive=True)
+        late = {"newsub": {"late": "LATESECRET-1"}}
+    elif variant == "late-in-item-schema":
+        item["late"] = cc.StringField(sensitive=True)
+        late = {"items": [dict(vals, late="LATESECRET-1")]}
+    if late:
+        cfg = cc.Config(s, key_filename=keypath)       # a configuration built after the schema grew
+        cfg.load_tree(dict(tree, **late))
+    if variant == "dynamic-holds-config":
+        held = cc.Config(item, key_filename=keypath)
+        held.load_tree(dict(vals))
+        cfg.extra = held
+    return cfg
+
+
+def _live_configs(node):
+    import cincoconfig as cc
+    if isinstance(node, cc.Config):
+        return 1
+    if isinstance(node, dict):
+        return sum(_live_configs(v) for v in node.values())
+    if isinstance(node, (list, tuple)):
+        return sum(_live_configs(v) for v in node)
+    return 0
+
+
+def _indirect(job, ctx):
+    import cincoconfig as cc
+    keypath = ctx.tmp + "/c10.key"
+    open(keypath, "wb").write(bytes(range(32)))
+    variant = job["indirect"]
+    only = job.get("only")
+    secrets = ["TOPSECRET-xyz", "XSECRET-q9", "LATESECRET-1"]
+    for prior in (False, True):
+        for mask in MASKS[1:]:
+            for virtual in (False, True):
+                ident = [prior, mask, virtual]
+                if only is not None and only != ident:
+                    continue
+                mtag = "empty" if mask == "" else ("1char" if len(mask) == 1 else "multi")
+                case = _case(job, ident)
+
+                def bad(what, msg, case=case, mask=mask, virtual=virtual):
+                    ctx.violation("C10|indirect|%s|%s" % (variant, what), "%s, mask %r, virtual=%s: %s" % (variant, mask, virtual, msg), case)
+                try:
+                    cfg = _indirect_world(variant, keypath, prior)
+                    plain = cfg.to_tree(virtual=virtual)
+                except Exception as exc:  # noqa
+                    ctx.case(("indirect", variant, repr(ident)), "indirect:unsupported", False)
+                    continue
+                ctx.transitions += 1
+                try:
+                    masked = cfg.to_tree(virtual=virtual, sensitive_mask=mask)
+                except Exception as exc:  # noqa
+                    bad("to_tree-raises", "the masked rendering raised %r, the plain one did not" % (exc,))
+                    continue
+                live = _live_configs(masked)
+                if live:
+                    bad("live-config-in-tree", "the masked tree holds %d live configuration object(s); their sensitive values are readable as they are" % live)
+                text = repr(masked)
+                leaked = [x for x in secrets if x in text]
+                if leaked:
+                    bad("secret-in-tree|mask=" + mtag, "the masked tree contains %s" % leaked)
+                if text.count("PUBLIC-abc") != repr(plain).count("PUBLIC-abc"):
+                    bad("non-sensitive-altered", "the non-sensitive values of the masked tree differ from the plain one")
+                want = mask * len("TOPSECRET-xyz") if len(mask) == 1 else mask
+                if masked.get("sec_s") != want:
+                    bad("not-masked|root", "the root's sensitive string is rendered as %r" % (masked.get("sec_s"),))
+                ctx.case(("indirect", variant, repr(ident)), "indirect:%s:%s" % (variant, mtag), True)
+                for fmt in job["formats"]:
+                    ctx.transitions += 1
+                    try:
+                        cfg.dumps(fmt, virtual=virtual)
+                    except Exception:  # noqa
+                        continue          # this position cannot be written in this format at all
+                    try:
+                        data = cfg.dumps(fmt, virtual=virtual, sensitive_mask=mask)
+                    except Exception as exc:  # noqa
+                        bad("dumps-raises|" + fmt, "the masked %s document raised %r, the plain one did not" % (fmt, exc))
+                        continue
+                    leaked = [x for x in secrets if x.encode() in data]
+                    if leaked:
+                        bad("secret-in-document|" + fmt, "the masked %s document contains %s" % (fmt, leaked))
+                    ctx.case(("indirect", variant, repr(ident), fmt), "indirect-doc:%s" % fmt, True)
+    ctx.traces += 1
+    ctx.sample({"indirect": variant, "masks": [repr(m) for m in MASKS[1:]]})
 
 
 def run_job(job, ctx):
@@ -149,6 +280,8 @@ def run_job(job, ctx):
     if single:
         job = dict(single["jobparams_full"]); job["only"] = single["only"]
     only = job.get("only")
+    if job.get("indirect"):
+        return _indirect(job, ctx)
     schema = build(job.get("schema_only"))
     keypath = ctx.tmp + "/c10.key"
     open(keypath, "wb").write(bytes(range(32)))
